@@ -78,7 +78,7 @@ static int p_fini_queue, p_stop_window, p_backlog, p_ctl_in_cb, p_thr_nothread_c
 	p_close_busy, p_burst, p_burst_overlap, p_orphaned, p_late_route, p_stale_slot, p_sync, p_async, p_lock_wait_app,
 	p_skipped_avoid, p_skipped_illegal, p_ctl_worker_locked, p_disable_with_queue, p_unthread_with_queue, p_stale_flag,
 	p_start_twice, p_start_late, p_prio_queued, p_prio_live, p_fini_nothread, p_trunc, p_may_drop, p_handoff_in_log,
-	p_worker_idle_at_fini, p_eintr_dummy, s_msgs, s_ops, s_maxq, s_lost, s_statics_found;
+	p_worker_idle_at_fini, p_start_failed, p_eintr_dummy, s_msgs, s_ops, s_maxq, s_lost, s_statics_found;
 
 static uintptr_t A_active, A_should_exit, A_lockptr, A_list, A_mem, A_dropped, A_sem;
 
@@ -165,6 +165,7 @@ static void init(const char *)
 	p_may_drop = counter_id("probe", "log_call_with_backlog_bound_above_limit");
 	p_handoff_in_log = counter_id("probe", "handoff_inside_log_call");
 	p_worker_idle_at_fini = counter_id("probe", "fini_with_worker_idle");
+	p_start_failed = counter_id("probe", "thread_start_failed_on_bad_priority");
 	p_eintr_dummy = counter_id("fault", "eintr");
 	s_msgs = counter_id("stat", "messages_logged");
 	s_ops = counter_id("stat", "ops_executed");
@@ -279,6 +280,7 @@ struct St {
 	int64_t qdepth = 0, qmax = 0;
 	// worker phase tracking (probes): 0 idle / waiting, 1 got the semaphore, 2 holds the lock
 	int wphase = 0;
+	bool prio_queued = false, prio_queued_valid = true;
 	int stop_guard = 0;
 	uintptr_t anchor = 0;
 };
@@ -498,7 +500,7 @@ static void close_cb(int32_t pos)
 	Tgt &T = G.T[t];
 	T.nclose_cb++;
 	if (T.in_cb_w > 0)
-		VFAIL("close-during-write", G.cur_op == K_CLOSE ? "qb_log_custom_close" : G.cur_op >= 0 ? op_names[G.cur_op] : "?",
+		VFAIL("close-during-write", G.cur_op == K_CLOSE ? "qb_log_custom_close" : G.cur_op == K_ENABLE ? "_log_target_disable" : G.cur_op == K_FINI ? "qb_log_fini" : "?",
 		      "the close callback of target %d (slot %d) ran while the logging thread was inside the logger callback of the same target", t, pos);
 }
 
@@ -770,6 +772,12 @@ static void app_op(const Op &op)
 		int32_t rc = ctl_i32(T.pos, QB_LOG_CONF_THREADED, on ? QB_TRUE : QB_FALSE);
 		if (rc != 0) VFAIL("bad-return", "qb_log_ctl", "CONF_THREADED returned %d", rc);
 		T.thr = on; G.a.T[t].thr = on; G.a.slot_thr[T.pos] = on;
+		if (!on && (G.av & AV_E) && G.a.lock_state() == 1) {
+			// avoid rule: once the flag is cleared no control call waits for the worker any more, although it may still be inside
+			// this target's logger: wait here, so that a later disable / close cannot overlap that write
+			struct W { static bool idle(void *a) { return ((Tgt *)a)->in_cb_w == 0; } };
+			while (!W::idle(&T)) block_until(W::idle, &T, -1, 953);
+		}
 		break; }
 	case K_ENABLE: {
 		Tgt &T = G.T[t];
@@ -814,18 +822,28 @@ static void app_op(const Op &op)
 		else for (int k = 0; k < NT; k++) if (G.T[k].open && G.T[k].thr) { count(p_start_late); break; }
 		ev(207);
 		int32_t rc = qb_log_thread_start();
-		if (rc != 0) VFAIL("bad-return", "qb_log_thread_start", "qb_log_thread_start returned %d", rc);
-		if (!G.a.lib_active) { G.a.lib_active = true; G.a.thr_live = true; }
-		// (with lib_active already set from an earlier cycle the call is a no-op inside the library: no thread in this cycle)
+		// (the simulated pthread_setschedparam accepts everything today; should it start refusing what the kernel refuses,
+		// a queued out-of-range priority makes the start fail, which the library reports and cleans up after)
+		bool may_fail = !G.a.lib_active && G.prio_queued && !G.prio_queued_valid;
+		if (rc != 0 && !(may_fail && rc == -EINVAL)) VFAIL("bad-return", "qb_log_thread_start", "qb_log_thread_start returned %d", rc);
+		if (rc == 0) {
+			if (!G.a.lib_active) { G.a.lib_active = true; G.a.thr_live = true; G.prio_queued = false; }
+			// (with lib_active already set from an earlier cycle the call is a no-op inside the library: no thread in this cycle)
+		} else {
+			count(p_start_failed);
+		}
 		break; }
 	case K_PRIO_SET: {
 		static const int pol[] = { SCHED_OTHER, SCHED_RR, SCHED_FIFO };
 		int policy = pol[(op.a[0] < 0 ? 0 : op.a[0]) % 3];
-		int prio = (int)(op.a[1] < 0 ? 0 : op.a[1] % 20);
+		int prio = (int)(op.a[1] < -1 ? -1 : op.a[1] > 99 ? 99 : op.a[1]);
+		bool valid = policy == SCHED_OTHER || (prio >= 1 && prio <= 99);
 		if (G.a.lib_active) count(p_prio_live); else count(p_prio_queued);
 		ev(208, policy, prio);
 		int32_t rc = qb_log_thread_priority_set(policy, prio);
-		if (rc != 0) VFAIL("bad-return", "qb_log_thread_priority_set", "qb_log_thread_priority_set(%d, %d) returned %d", policy, prio, rc);
+		if (!G.a.lib_active) { G.prio_queued = true; G.prio_queued_valid = valid; }
+		if (rc != 0 && !(rc == -EINVAL && !valid && G.a.lib_active))
+			VFAIL("bad-return", "qb_log_thread_priority_set", "qb_log_thread_priority_set(%d, %d) returned %d", policy, prio, rc);
 		break; }
 	case K_LOG: {
 		int n = (int)(op.a[0] < 0 ? 0 : op.a[0] > MAX_MSG_PER_OP ? MAX_MSG_PER_OP : op.a[0]);
@@ -1022,7 +1040,7 @@ static void gen(const char *, RunSpec &spec)
 			if (start_at == 2) start_at = 1;
 		}
 		bool started = false;
-		if (use_thread && start_at == 0) { if (r.chance(1, 5)) g.emit(K_PRIO_SET, r.below(3), r.below(20)); g.emit(K_THREAD_START); started = true; }
+		if (use_thread && start_at == 0) { if (r.chance(1, 5)) g.emit(K_PRIO_SET, r.below(3), r.chance(1, 8) ? r.range(-1, 0) : r.range(1, 19)); g.emit(K_THREAD_START); started = true; }
 		// ---- set-up: a shuffled interleaving of per-target configuration sequences
 		int nt = backlog ? 1 : (int)r.range(1, NT);
 		std::vector<Op> setup;
@@ -1053,7 +1071,7 @@ static void gen(const char *, RunSpec &spec)
 		size_t prio_idx = r.chance(1, 6) ? (size_t)r.below(setup.size() + 1) : (size_t)-1;
 		size_t early_log = r.chance(1, 4) ? (size_t)r.below(setup.size() + 1) : (size_t)-1;
 		for (size_t i = 0; i <= setup.size(); i++) {
-			if (i == prio_idx) g.emit(K_PRIO_SET, r.below(3), r.below(20));
+			if (i == prio_idx) g.emit(K_PRIO_SET, r.below(3), r.chance(1, 8) ? r.range(-1, 0) : r.range(1, 19));
 			if (i == start_idx) { g.emit(K_THREAD_START); started = true; }
 			if (i == early_log) g.emit(K_LOG, r.range(1, 3), g.pick_size(), r.below(6), r.chance(1, 2));
 			if (i < setup.size()) { const Op &o = setup[i]; g.emit(o.kind, o.a[0], o.a[1], o.a[2], o.a[3], o.a[4]); }
@@ -1096,7 +1114,7 @@ static void gen(const char *, RunSpec &spec)
 						}
 					}
 					else if (k < 98) { g.emit(K_THREAD_START); if (use_thread) started = true; }
-					else g.emit(K_PRIO_SET, r.below(3), r.below(20));
+					else g.emit(K_PRIO_SET, r.below(3), r.chance(1, 8) ? r.range(-1, 0) : r.range(1, 19));
 				}
 			}
 			if (use_thread && !started) { g.emit(K_THREAD_START); started = true; if (r.chance(1, 2)) g.emit(K_LOG, r.range(1, 4), g.pick_size(), r.below(6), 0); }
